@@ -63,6 +63,9 @@ def own_library(name, lang, wraps, options=None, fmt=None, namespace=None, patte
                F("tvec", "int", [P("v", "vec_in", "int")]),
                F("tvout", "void", [P("v", "vec_out", "int")]),
                F("tvio", "void", [P("v", "vec_inout", "double")])]
+    # buffers the wrapper itself allocates for an intent(out) array whose extents are expressions
+    fs += [F("aout2", "void", [P("n", "val", "int", role="count"), P("m", "val", "int", role="count"), P("a", "arr_out", "int", dims=["n+1", "m"])]),
+           F("aout2d", "int", [P("n", "val", "int", role="count"), P("m", "val", "int", role="count"), P("a", "arr_out", "double", dims=["n", "m+2-1"])])]
     fs += [F("cres", "cstr", [P("n", "val", "int", role="outlen")]),
            F("tcstr", "int", [P("s", "cstr_in")]),
            F("tcout", "void", [P("s", "cstr_out", charlen=12)]),
@@ -173,7 +176,7 @@ def make_history(lib, r, target, n_ops):
         return [oid], []
 
     arr_fns = [f["name"] for f in lib["functions"] if f["ret"]["kind"] == "arr_ptr"]
-    misc = [n for n in ("sval", "sown", "scref", "vret", "vretd", "cres", "tstr", "tsval", "tsout", "tsio", "tvec", "tvout", "tvio",
+    misc = [n for n in ("aout2", "aout2d", "sval", "sown", "scref", "vret", "vretd", "cres", "tstr", "tsval", "tsout", "tsio", "tvec", "tvout", "tvio",
                         "tcstr", "tcout", "tcio") if n in names]
     if target == "c":
         misc = [n for n in misc if cdrv.c_callable(lib["functions"][fidx(lib, n)])]
@@ -186,7 +189,9 @@ def make_history(lib, r, target, n_ops):
         for p in f["params"]:
             if p["kind"] in ir.IN_KINDS and p["kind"] != "implied":
                 k = p["kind"]
-                if p.get("role") == "outlen":
+                if p.get("role") == "count":
+                    args[p["name"]] = r.choice([0, 1, 2, 4])
+                elif p.get("role") == "outlen":
                     args[p["name"]] = n if n is not None else r.choice([0, 0, 1, 7, 40, -1 if f["ret"]["kind"] == "cstr" and target == "fortran" else 3])
                 elif k in ("val",):
                     args[p["name"]] = r.choice(libs.battery(p["T"]))
